@@ -20,7 +20,7 @@ from ..worker import _lift_limits
 
 LEVEL = "exploration"
 RULE = ("cases = op scripts of five classes: EL (1-40 ops over post / wakeup / wait(0) / k threads posting n each behind a barrier / post while blocked), "
-        "Q1 (capacity 1-8, message size 1-32, every policy, 1-60 enqueue / dequeue / clear / stats / full-empty ops), QT (1-4 producers x 20-400 messages, "
+        "Q1 (capacity 1-8, message size 1-32, every policy, 1-60 enqueue / dequeue / clear / stats / full-empty ops), QB (1-5 writers blocked on a full BLOCK_WRITER queue of capacity 1-6, then drain / clear + drain / clear + enqueue + drain), QT (1-4 producers x 20-400 messages, "
         "capacity 1-16, each policy, seeded yields, one consumer), WK (4 worker procedure kinds x delay before stop 0-20 ms x stop or not x join timeout "
         "{0, 5, 50, 300, infinite}), TM (interval 1-20 ms x run 0-60 ms x 0-3 restarts); thorough adds a ThreadSanitizer pass over the threaded classes. "
         "non-trivial = >= 2 posts between two waits, or the queue reached full, or join issued within 1 ms of create; distinct = script text")
@@ -100,6 +100,11 @@ def qt_case(draw):
 
 
 @st.composite
+def qb_case(draw):
+    return dict(kind="QB", line="QB %d %d %d" % (draw(st.integers(1, 6)), draw(st.integers(1, 5)), draw(st.integers(0, 2))))
+
+
+@st.composite
 def wk_case(draw):
     return dict(kind="WK", line="WK %d %d %d %d %d" % (draw(st.integers(0, 3)), draw(st.sampled_from([0, 0, 0, 50, 500, 3000, 20000])), draw(st.integers(0, 1)),
                                                        draw(st.sampled_from([0, 5, 50, 300, -1])), draw(st.integers(0, 10 ** 6))))
@@ -111,7 +116,7 @@ def tm_case(draw):
 
 
 def cases():
-    return st.one_of(el_case(), el_case(), el_case(), el_case(), q1_case(), q1_case(), q1_case(), qt_case(), wk_case(), tm_case())
+    return st.one_of(el_case(), el_case(), el_case(), el_case(), q1_case(), q1_case(), q1_case(), qt_case(), qb_case(), wk_case(), tm_case())
 
 
 # ------------------------------------------------------------------ the checker process
@@ -291,6 +296,19 @@ def check_qt(line, rec):
     return None, feats
 
 
+def check_qb(line, rec):
+    feats = {"full", "threads"}
+    if not rec.get("created"):
+        return ("queue-not-created", line), feats
+    tok = line.split()
+    if rec["finished"] < int(tok[2]):
+        return ("blocked-writer-never-released", "%d of %s producers were still blocked in enqueue() 3 s after space became available: %r" % (
+            int(tok[2]) - rec["finished"], tok[2], rec)), feats
+    if rec["got"] != rec["expect"]:
+        return ("accepted-message-lost", "%r" % rec), feats
+    return None, feats
+
+
 def check_wk(line, rec):
     tok = line.split()
     kind, delay, stop, join_ms = int(tok[1]), int(tok[2]), int(tok[3]), int(tok[4])
@@ -333,7 +351,7 @@ def check_tm(line, rec):
     return None, feats
 
 
-CHECKS = {"EL": check_el, "Q1": check_q1, "QT": check_qt, "WK": check_wk, "TM": check_tm}
+CHECKS = {"EL": check_el, "Q1": check_q1, "QT": check_qt, "QB": check_qb, "WK": check_wk, "TM": check_tm}
 
 
 def sane(case):
